@@ -189,12 +189,17 @@ CHECK_DEADLOCK FALSE
 """
 
 
+CFG_EXTRA = {
+    "TraceRW": 'CONSTANTS\n  Backend = "badger"\n  MetaAlways = TRUE\n  Gs = {1}\n  IdSet = {1, 2}\n  Vals = {1, 2}\n',
+}
+
+
 def validate_chunk(ctx, module, invariants, lines, name, heap="4g", timeout=900):
     """Validate one chunk (a list of raw ndjson lines); returns the tlc() result."""
     p = os.path.join(ctx.work, "chunk-%s.ndjson" % name)
     with open(p, "w") as f:
         f.writelines(lines)
-    cfg = TRACE_CFG % " ".join(invariants)
+    cfg = TRACE_CFG % " ".join(invariants) + CFG_EXTRA.get(module, "")
     return tlc(ctx, module, cfg, name, env={"TRACE_FILE": p}, workers=1, heap=heap, timeout=timeout)
 
 
@@ -657,14 +662,16 @@ def stage_aux(ctx, st):
             known_lines.setdefault(k["what"], []).append(ln)
     traces = [[ln] for ln in rest] + [[lns[0]] for lns in known_lines.values()]
     ctx.extra["known_finding_instances"] = {w[:60]: len(lns) for w, lns in known_lines.items()}
-    found = validate_traces(ctx, "TraceAux", st.get("invariants", ["InvAux"]), traces, st["name"], chunk=st.get("chunk", 400), par=12,
-                            heap=st.get("heap", "6g"))
+    found = validate_traces(ctx, st.get("module", "TraceAux"), st.get("invariants", ["InvAux"]), traces, st["name"],
+                            chunk=st.get("chunk", 400), par=12, heap=st.get("heap", "6g"))
     ctx.stage_log.append({"stage": st["name"], "aux": st["aux"], "lines": len(all_lines), "rejections": len(found)})
     if st.get("advisory"):
         # model-drift measurement: how often the planner *model* disagrees with the real planner.
         # A disagreement is not a verdict about the code (another valid plan is allowed).
-        ctx.extra["model_drift"] = {"stage": st["name"], "lines": len(all_lines), "disagreements_found": len(found),
-                                    "first": (json.loads(found[0]["trace"][0]).get("crit") if found else None)}
+        first = json.loads(found[0]["trace"][0]) if found else {}
+        ctx.extra.setdefault("model_drift", []).append({
+            "stage": st["name"], "lines": len(all_lines), "disagreements_found": len(found),
+            "first": ({k: first.get(k) for k in ("crit", "op", "pre", "reads", "writes", "be") if k in first} if found else None)})
         if found:
             ctx.log("  advisory: planner model and real planner disagree on %d sampled line(s)" % len(found))
         return
